@@ -154,7 +154,8 @@ def run(repo, chk):
 
     # ---- R3 ------------------------------------------------------------------------------
     wc = Fn(repo, CONN + "_write_connection_close_frame")
-    rb = wc.assigns(chain="reason_bytes")
+    # hoisted single-definition locals (`encoded = reason.encode(...)`, `space = max(0, ...)`) are read through
+    rb = [(st, t, wc._expand(v, 4, set()) if v is not None else v) for st, t, v in wc.assigns(chain="reason_bytes")]
     ok = False
     for st, t, v in rb:
         if isinstance(v, ast.Subscript) and isinstance(v.slice, ast.Slice) and v.slice.upper is not None and "remaining_buffer_space" in norm(v.slice.upper) and "encode(" in norm(v.value):
